@@ -8,6 +8,8 @@
  *   P new | P alloc | P delete i | P free
  *   D new perf | D resize rows cols freqs | D free   (vnadata_alloc [+ per-frequency z0 flag], vnadata_resize(VPT_UNDEF,...), vnadata_free)
  *   A type frows fcols brows bcols srows scols      (vnacal_new_add_mapped_matrix_m, port_map NULL)
+ *   Z new | Z resize rows cols freqs | Z setfz0 findex port | Z setfz0v findex src [i] | Z setz0 port | Z setz0v src [i] |
+ *   Z setallz0 | Z free      (the z0 modes of a vnadata_t: conversions, setters, the caller's vector taken from a getter)
  *   H new nparams | H get p | H find p | H free
  *        the parameter hash of a vnacal_new_t (vn_parameter_hash): new = _vnacal_new_init_parameter_hash on a
  *        vnacal_t holding nparams scalar parameters, get = _vnacal_new_get_parameter, find = hash_lookup (p < 0:
@@ -130,7 +132,8 @@ int main(int argc, char **argv)
     vnaproperty_t *list = NULL;
     vnacal_t *vcp = NULL;
     vnadata_t *vdp = NULL;
-    long lbase = 0, pbase = 0, dbase = 0;
+    long lbase = 0, pbase = 0, dbase = 0, zbase = 0;
+    vnadata_t *zdp = NULL;
     FILE *fp = argc > 1 ? fopen(argv[1], "r") : stdin;
     if (fp == NULL) return 2;
     setvbuf(stdout, NULL, _IOLBF, 0);
@@ -183,6 +186,42 @@ int main(int argc, char **argv)
 	    else if (!strcmp(op, "free")) { vnadata_free(vdp); vdp = NULL; rc = 0; }
 	    verif_alloc_track(0);
 	    live = verif_live_blocks() - dbase;
+	} else if (obj[0] == 'Z') {
+	    /* the z0 modes of a vnadata_t (coq/Mem/DataZ0.v): Z new | Z resize rows cols freqs | Z setfz0 findex port |
+	     * Z setfz0v findex src [i] | Z setz0 port | Z setz0v src [i] | Z setallz0 | Z free
+	     * src: 0 = a buffer of the harness, 1 = vnadata_get_z0_vector(vdp), 2 = vnadata_get_fz0_vector(vdp, i)
+	     * (a getter that fails makes the op fail with the getter's errno: the setter is not called) */
+	    static double complex extbuf[256];
+	    if (!strcmp(op, "new")) { zbase = verif_live_blocks(); zdp = vnadata_alloc(NULL, NULL); rc = zdp ? 0 : -1; }
+	    else if (zdp == NULL) { rc = -2; }
+	    else if (!strcmp(op, "resize")) { rc = vnadata_resize(zdp, VPT_UNDEF, (int)a[0], (int)a[1], (int)a[2]); }
+	    else if (!strcmp(op, "setfz0")) { rc = vnadata_set_fz0(zdp, (int)a[0], (int)a[1], 50.0); }
+	    else if (!strcmp(op, "setz0")) { rc = vnadata_set_z0(zdp, (int)a[0], 75.0); }
+	    else if (!strcmp(op, "setallz0")) { rc = vnadata_set_all_z0(zdp, 60.0); }
+	    else if (!strcmp(op, "setfz0v") || !strcmp(op, "setz0v")) {
+		int isf = !strcmp(op, "setfz0v");
+		long src = isf ? a[1] : a[0], si = isf ? a[2] : a[1];
+		const double complex *vec = extbuf;
+		int ports = vnadata_get_rows(zdp) > vnadata_get_columns(zdp) ? vnadata_get_rows(zdp) : vnadata_get_columns(zdp);
+		verif_alloc_track(0);
+		errno = 0;
+		if (src == 1) vec = vnadata_get_z0_vector(zdp);
+		else if (src == 2) vec = vnadata_get_fz0_vector(zdp, (int)si);
+		int ge = errno;
+		if (ports > 256) { rc = -2; }
+		else if (src != 0 && vec == NULL && (ge != 0 || ports > 0)) { rc = -1; errno = ge ? ge : EINVAL; }
+		else {
+		    verif_alloc_reset(k >= 0 ? k + 1 : 0);
+		    errno = 0;
+		    verif_alloc_track(1);
+		    rc = isf ? vnadata_set_fz0_vector(zdp, (int)a[0], vec) : vnadata_set_z0_vector(zdp, vec);
+		}
+	    }
+	    else if (!strcmp(op, "free")) { vnadata_free(zdp); zdp = NULL; rc = 0; }
+	    int e = errno;
+	    verif_alloc_track(0);
+	    live = verif_live_blocks() - zbase;
+	    errno = e;
 	} else if (obj[0] == 'H') {
 	    if (!strcmp(op, "new")) {
 		verif_alloc_track(0);
@@ -279,5 +318,6 @@ int main(int argc, char **argv)
     if (list != NULL) vnaproperty_free(list);
     if (vcp != NULL) vnacal_free(vcp);
     if (vdp != NULL) vnadata_free(vdp);
+    if (zdp != NULL) vnadata_free(zdp);
     return 0;
 }
